@@ -124,6 +124,8 @@ thread_local! {
   pub static CURRENT_CASE: RefCell<String> = const { RefCell::new(String::new()) };
 }
 pub static CURRENT_PROP: Mutex<String> = Mutex::new(String::new());
+/// first panic that happened outside any evaluated case (generator / harness bug)
+pub static HARNESS_ERROR: Mutex<Option<String>> = Mutex::new(None);
 pub static VERIF_DIR: Mutex<String> = Mutex::new(String::new());
 
 fn hash64(s: &str) -> u64 {
@@ -362,7 +364,7 @@ pub fn run_prop<P: Prop>(p: &P, ctx: &Ctx) -> i32 {
                 );
                 let local_ref = RefCell::new(&mut local);
                 let strategy = strategy();
-                let res = runner.run(&strategy, |case| {
+                let res = guard(|| runner.run(&strategy, |case| {
                   if stop.load(Ordering::Relaxed) && !failed.load(Ordering::Relaxed) {
                     return Ok(());
                   }
@@ -397,8 +399,17 @@ pub fn run_prop<P: Prop>(p: &P, ctx: &Ctx) -> i32 {
                       Err(TestCaseError::fail(reason))
                     }
                   }
-                });
+                }));
                 drop(local_ref);
+                let res = match res {
+                  Ok(r) => r,
+                  Err(panic) => {
+                    // a panic outside any evaluated case: generator or harness bug, never a verdict
+                    HARNESS_ERROR.lock().unwrap().get_or_insert(format!("leg {leg_name}: {panic}"));
+                    stop.store(true, Ordering::SeqCst);
+                    Ok(())
+                  }
+                };
                 if let Err(e) = res {
                   match e {
                     TestError::Fail(reason, case) => {
@@ -626,6 +637,10 @@ pub fn run_prop<P: Prop>(p: &P, ctx: &Ctx) -> i32 {
     println!("stage {name}: {reason}");
     println!("VIOLATION property={} replay={}", P::ID, path);
     return 1;
+  }
+  if let Some(e) = HARNESS_ERROR.lock().unwrap().clone() {
+    println!("INCONCLUSIVE property={}: harness error (a panic outside any evaluated case): {e}", P::ID);
+    return 2;
   }
   if let Some(why) = stage_inconclusive {
     println!("INCONCLUSIVE property={}: {why}", P::ID);
